@@ -412,14 +412,14 @@ class Interp:
         if dec is None:
             self.taint_by(t, st.test)
         if dec is not None:
-            self.event("decision", st, test=norm_text(st.test), outcome=bool(dec), forced=True, compares=cmps)
+            self.event("decision", st, test=norm_text(st.test), outcome=bool(dec), forced=True, compares=cmps, key=tkey[0] if tkey else None, key_neg=tkey[1] if tkey else None)
             return self.exec_block(st.body if dec else st.orelse, env)
         if self.join_depth == 0:
             c = self.oracle.decide(site, 2)
             self.trace.decisions.append(f"{'T' if c == 0 else 'F'}[{norm_text(st.test)}]")
             if tkey is not None:
                 self.trace.decided[tkey[0]] = (c == 0) ^ tkey[1]
-            self.event("decision", st, test=norm_text(st.test), outcome=(c == 0), forced=False, compares=cmps)
+            self.event("decision", st, test=norm_text(st.test), outcome=(c == 0), forced=False, compares=cmps, key=tkey[0] if tkey else None, key_neg=tkey[1] if tkey else None)
             self.ops.assume(st.test, c == 0, env)
             return self.exec_block(st.body if c == 0 else st.orelse, env)
         self.event("decision", st, test=norm_text(st.test), outcome=None, forced=False, compares=cmps)
@@ -534,7 +534,7 @@ class Interp:
     # ---- loops
     def s_For(self, st, env):
         it = self.eval(st.iter, env)
-        seq = self.ops.iterate(it, st.iter, env)  # ("concrete", [vals]) | ("abstract", elem, info)
+        seq = self.ops.iterate(it, st.iter, env, parts=self.join_depth == 0)  # ("concrete", [vals]) | ("abstract", elem, info) | ("parts", elem, info, [vals])
         if seq[0] != "concrete" and seq[1] is None:
             # summary of a collection that never received an element
             seq = ("concrete", [])
@@ -543,43 +543,57 @@ class Interp:
             self.event("decision", st, test=f"{norm_text(st.iter)} is empty", outcome=True, forced=True, compares=[])
             seq = ("concrete", [])
         if seq[0] == "concrete":
-            outs: dict = {}
-            cur = env
-            for v in seq[1]:
-                self.assign(st.target, v, cur, st)
-                r = self.exec_block(st.body, cur)
-                nxt = None
-                for kind, (e, val) in r.items():
-                    if kind in (NORMAL, CONTINUE):
-                        if nxt is None:
-                            nxt = e
-                        else:
-                            self.join_env_into(nxt, e)
-                    elif kind == BREAK:
-                        self._merge_out(outs, "loopbreak", e, None)
-                    else:
-                        self._merge_out(outs, kind, e, val)
-                if nxt is None:
-                    cur = None
-                    break
-                cur = nxt
-            final = cur
-            if "loopbreak" in outs:
-                be, _ = outs.pop("loopbreak")
-                if final is None:
-                    final = be
-                else:
-                    self.join_env_into(final, be)
-            if final is not None:
-                if st.orelse:
-                    r = self.exec_block(st.orelse, final)
-                    for kind, (e, val) in r.items():
-                        self._merge_out(outs, kind, e, val)
-                else:
-                    self._merge_out(outs, NORMAL, final, None)
+            return self._concrete_loop(st, env, seq[1])
+        if seq[0] == "parts":
+            # a summarised prefix followed by known items: the generic iterations first, then one iteration per item
+            _, elem, info, tail = seq
+            outs = self._abstract_loop(st, env, elem, info, run_orelse=False)
+            if NORMAL not in outs:
+                return outs
+            env1, _ = outs.pop(NORMAL)
+            rest = self._concrete_loop(st, env1, tail)
+            for kind, (e, val) in rest.items():
+                self._merge_out(outs, kind, e, val)
             return outs
         _, elem, info = seq
         return self._abstract_loop(st, env, elem, info)
+
+    def _concrete_loop(self, st, env, items):
+        outs: dict = {}
+        cur = env
+        for v in items:
+            self.assign(st.target, v, cur, st)
+            r = self.exec_block(st.body, cur)
+            nxt = None
+            for kind, (e, val) in r.items():
+                if kind in (NORMAL, CONTINUE):
+                    if nxt is None:
+                        nxt = e
+                    else:
+                        self.join_env_into(nxt, e)
+                elif kind == BREAK:
+                    self._merge_out(outs, "loopbreak", e, None)
+                else:
+                    self._merge_out(outs, kind, e, val)
+            if nxt is None:
+                cur = None
+                break
+            cur = nxt
+        final = cur
+        if "loopbreak" in outs:
+            be, _ = outs.pop("loopbreak")
+            if final is None:
+                final = be
+            else:
+                self.join_env_into(final, be)
+        if final is not None:
+            if st.orelse:
+                r = self.exec_block(st.orelse, final)
+                for kind, (e, val) in r.items():
+                    self._merge_out(outs, kind, e, val)
+            else:
+                self._merge_out(outs, NORMAL, final, None)
+        return outs
 
     def _range_known_empty(self, it) -> bool:
         from .values import ListV, TV
@@ -594,7 +608,7 @@ class Interp:
     def s_While(self, st, env):
         return self._abstract_loop(st, env, None, {"while": True})
 
-    def _abstract_loop(self, st, env: Env, elem, info: dict):
+    def _abstract_loop(self, st, env: Env, elem, info: dict, run_orelse: bool = True):
         self.loop_ids += 1
         lid = f"L{self.loop_ids}"
         symmetric = bool(info.get("symmetric"))
@@ -640,7 +654,7 @@ class Interp:
         if exit_env is not None:
             self.join_env_into(head, exit_env)
         self.ops.loop_exit(head, lid, info, st)
-        if st.orelse:
+        if st.orelse and run_orelse:
             r = self.exec_block(st.orelse, head)
             for kind, (e, val) in r.items():
                 self._merge_out(outs, kind, e, val)
